@@ -19,6 +19,15 @@ CreateOpt(p, o) ==
   ELSE IF o.k = "pusi" THEN [p EXCEPT ![2] = OrByte(@, 64)]
   ELSE IF o.k = "cont" THEN [p EXCEPT ![6] = OrByte(@, 127)]
   ELSE IF o.k = "disc" THEN [p EXCEPT ![6] = OrByte(@, 128)]
+  ELSE IF o.k = "setpay" THEN ExpectSetPayloadFn(p, o.d).pkt          \* the closure of CreatePacketWithPayload
   ELSE LET q == ExpectSetPayloadFn(p, PesStart(o.pts)).pkt IN [q EXCEPT ![4] = OrByte(@, 16)]   \* "pes"
 ExpectCreate(pid, opts) == [FoldLeft(CreateOpt, CreateBase(pid), opts) EXCEPT ![1] = 71]
+
+\* the convenience constructors are compositions of Create and SetCC (create.go)
+B2O(c, k) == IF c THEN <<[k |-> k, pts |-> <<0, 0, 0, 0, 0, 0, 0, 0>>, d |-> <<>>]>> ELSE <<>>
+ExpectCreateFn(kind, pid, cc, pusi, haspay, d) ==
+  LET opts == IF kind = "CreateTestPacket" THEN B2O(haspay, "pay") \o B2O(TRUE, "cont") \o B2O(pusi, "pusi")
+              ELSE IF kind = "CreateDCPacket" THEN B2O(TRUE, "disc") \o B2O(TRUE, "pay")
+              ELSE B2O(TRUE, "pay") \o B2O(TRUE, "cont") \o <<[k |-> "setpay", pts |-> <<0, 0, 0, 0, 0, 0, 0, 0>>, d |-> d]>>
+  IN Set("cc", ExpectCreate(pid, opts), cc)
 =============================================================================
